@@ -655,6 +655,21 @@ func TestVerifC18ServerLib(t *testing.T) {
 	rng := r.Rng
 
 	// 1. clientAddr
+	{
+		irng := rand.New(rand.NewSource(r.Seed + 77))
+		var cs []string
+		for i := 0; i < r.N(300, 3000); i++ {
+			switch irng.Intn(3) {
+			case 0:
+				cs = append(cs, c18v4(irng).s)
+			case 1:
+				cs = append(cs, c18v6(irng, irng.Intn(256)).s)
+			default:
+				cs = append(cs, c18garbage(irng, []c18case{c18v4(irng), c18v6(irng, irng.Intn(256))}).s)
+			}
+		}
+		r.Independent("clientAddr", "clientAddr", cs, c18realAddr)
+	}
 	var pool []c18case
 	for _, c := range c18specials {
 		c18checkAddr(r, c)
